@@ -195,7 +195,7 @@ macro_rules! c16_sched {
                 std::time::Instant::now => crate::common::stubs::instant_now,
                 std::time::Instant::elapsed => crate::common::stubs::instant_elapsed
             ],
-            targets: "fsa::version_sync::VersionManager::{acquire_writer_token, acquire_reader_token, release_reader_token, release_writer_token, try_advance_min_version}, ReaderToken/WriterToken::drop, LazyFreeItem::can_free; schedule points 401,402,403,410,411,421,422,423,424",
+            targets: "fsa::version_sync::VersionManager::{acquire_writer_token, acquire_reader_token, release_reader_token, release_writer_token, try_advance_min_version}, ReaderToken/WriterToken::drop, LazyFreeItem::can_free; schedule points 401,402,403,404,410,411,413,421,422,423,424",
             bounds: "one manager at the instance's ConcurrencyLevel; thread A: one operation (instance arg: 0 acquire writer, 1 acquire reader, 2 release a reader); the first time A reaches ONE schedule point (instance arg before last: its id) the solver runs 0..K complete enabled operations of thread B from {acquire writer, acquire reader, drop a reader, drop a writer} (K = last arg, nesting depth 1); B holds at most 2+2 tokens; sequentially consistent atomics",
             oracle: "at quiescence: live writer tokens <= 1 (OneWriteMultiRead); active_readers/active_writers == live token counts; min_version <= version of every live token and LazyFreeItem{age = that version}.can_free(min_version) is false; a refused writer request leaves the counters unchanged; all counters 0 after every token is dropped",
             body: { version_sched(ConcurrencyLevel::$level, $aop, $point, $k) }
@@ -208,6 +208,8 @@ c16_sched!(c16_reader_at411_k2, quick, 4, OneWriteMultiRead, 1, 411, 2);
 c16_sched!(c16_release_at421_k2, thorough, 4, OneWriteMultiRead, 2, 421, 2);
 c16_sched!(c16_release_at424_k2, quick, 4, OneWriteMultiRead, 2, 424, 2);
 c16_sched!(c16_writer_at403_k2, quick, 4, OneWriteMultiRead, 0, 403, 2);
+c16_sched!(c16_writer_at404_k2, quick, 4, OneWriteMultiRead, 0, 404, 2);
+c16_sched!(c16_reader_at413_k2, quick, 4, OneWriteMultiRead, 1, 413, 2);
 c16_sched!(c16_writer_stshared_at402_k3, quick, 5, SingleThreadShared, 0, 402, 3);
 c16_sched!(c16_reader_ststrict_at411_k3, quick, 5, SingleThreadStrict, 1, 411, 3);
 c16_sched!(c16_writer_mwmr_at402_k3, quick, 5, MultiWriteMultiRead, 0, 402, 3);
